@@ -13,7 +13,7 @@ import os, sys, mmap as _real_mmap, signal, struct, hashlib, select, errno, line
 import multiprocessing as _real_mp
 import numpy
 
-NS = 24        # process slots
+NS = 64        # process slots
 NL = 512       # lock table
 NR = 256       # raw values
 NK = 40        # event kinds
@@ -331,17 +331,7 @@ class Sim:
         if not self.hdr[H_OVER]:
             self.hdr[H_OVER] = over
             if over == OVER_DEADLOCK:
-                # name a lock that somebody is blocked on, and its owner
-                n = int(self.hdr[H_NSLOT])
-                for s in range(n):
-                    if self.status[s] == B_LOCK:
-                        l = int(self.blocked[s])
-                        self.hdr[H_DL_LOCK] = l
-                        self.hdr[H_DL_OWNER] = int(self.lock_owner[l])
-                        own = int(self.lock_owner[l])
-                        if own >= 0 and self.status[own] == KILLED:
-                            break
-                self.log(K_DEADLOCK, int(self.hdr[H_DL_LOCK]), int(self.hdr[H_DL_OWNER]))
+                self._note_deadlock()
             else:
                 self.log(K_LIVELOCK)
         if self.me == 0:
@@ -449,19 +439,23 @@ class Sim:
         self.observe_writes()
         self._die()
 
+    def _note_deadlock(self):
+        '''Name a lock that somebody is blocked on and its owner, preferring one whose owner was killed.'''
+        n = int(self.hdr[H_NSLOT])
+        for s in range(n):
+            if self.status[s] == B_LOCK:
+                l = int(self.blocked[s])
+                self.hdr[H_DL_LOCK] = l
+                self.hdr[H_DL_OWNER] = int(self.lock_owner[l])
+                own = int(self.lock_owner[l])
+                if own >= 0 and self.status[own] == KILLED:
+                    break
+        self.log(K_DEADLOCK, int(self.hdr[H_DL_LOCK]), int(self.hdr[H_DL_OWNER]))
+
     def _declare_over_and_die(self):
         if not self.hdr[H_OVER]:
             self.hdr[H_OVER] = OVER_DEADLOCK
-            n = int(self.hdr[H_NSLOT])
-            for s in range(n):
-                if self.status[s] == B_LOCK:
-                    l = int(self.blocked[s])
-                    self.hdr[H_DL_LOCK] = l
-                    self.hdr[H_DL_OWNER] = int(self.lock_owner[l])
-                    own = int(self.lock_owner[l])
-                    if own >= 0 and self.status[own] == KILLED:
-                        break
-            self.log(K_DEADLOCK, int(self.hdr[H_DL_LOCK]), int(self.hdr[H_DL_OWNER]))
+            self._note_deadlock()
         self._wake(0)
         os.kill(os.getpid(), signal.SIGKILL)
         while True:
@@ -526,7 +520,7 @@ class Sim:
         if nxt == -1:
             if not self.hdr[H_OVER]:
                 self.hdr[H_OVER] = OVER_DEADLOCK
-                self.log(K_DEADLOCK, -1, -1)
+                self._note_deadlock()
             self._wake(0)
         else:
             self._wake(nxt)
